@@ -209,6 +209,106 @@ func runC09(c *eng.Ctx) {
 	// ---- R7
 	r7 := c.Rule("C09.R7", "H:nil-after-strip + F:sibling agreement", "the renderers dereference ObjectAndFilterResult.Object only under a presence test, or only for a config version whose converter always keeps full objects; every converter sets the monitor's KeepFullObjectsInMemory explicitly", 4)
 	runC09R7(c, r7)
+
+	// ---- R8
+	r8 := c.Rule("C09.R8", "D:freshness", "every entry of a binding-link registry (kubernetes, schedule, admission, conversion) is its own link object: the stored pointer is a composite literal allocated for that store", 4)
+	runC09R8(c, r8)
+}
+
+// runC09R8: the controllers keep `map[key]*...Link` registries from which the binding context of an event is filled
+// (binding name, group, fromVersion/toVersion, ...). An entry must not alias the object of another entry: a pointer
+// allocated outside the loop and stored under several keys makes every key report the fields of the last one.
+func runC09R8(c *eng.Ctx, r *eng.RuleCtx) {
+	p := c.P
+	isLinkPtr := func(t types.Type) bool {
+		pt, ok := t.(*types.Pointer)
+		if !ok {
+			return false
+		}
+		n, ok := pt.Elem().(*types.Named)
+		return ok && strings.HasSuffix(n.Obj().Name(), "Link") && n.Obj().Pkg() != nil && strings.HasSuffix(n.Obj().Pkg().Path(), pkgCtrl)
+	}
+	isFreshLit := func(e ast.Expr) bool {
+		u, ok := ast.Unparen(e).(*ast.UnaryExpr)
+		if !ok || u.Op != token.AND {
+			return false
+		}
+		_, isLit := ast.Unparen(u.X).(*ast.CompositeLit)
+		return isLit
+	}
+	n := 0
+	for _, f := range funcsOfPkg(p, pkgCtrl) {
+		if f.Decl.Body == nil {
+			continue
+		}
+		info := f.Pkg.TypesInfo
+		ast.Inspect(f.Decl.Body, func(x ast.Node) bool {
+			as, ok := x.(*ast.AssignStmt)
+			if !ok || len(as.Lhs) != 1 || len(as.Rhs) != 1 {
+				return true
+			}
+			ix, isIx := ast.Unparen(as.Lhs[0]).(*ast.IndexExpr)
+			if !isIx {
+				return true
+			}
+			tv, has := info.Types[ix.X]
+			if !has {
+				return true
+			}
+			mt, isM := tv.Type.Underlying().(*types.Map)
+			if !isM || !isLinkPtr(mt.Elem()) {
+				return true
+			}
+			n++
+			c.Touch(f)
+			construct := fmt.Sprintf("%s stores %s", f.Key, eng.Short(p.Fset, as.Lhs[0]))
+			rhs := as.Rhs[0]
+			if isFreshLit(rhs) {
+				r.Ok(construct, as.Pos(), "a composite literal allocated for this entry")
+				return true
+			}
+			v, isV := eng.SelObj(info, rhs).(*types.Var)
+			if isV && isParamOfFunc(f, v) {
+				// a setter: every caller passes a fresh literal
+				idx := -1
+				for i, prm := range paramObjs(f) {
+					if prm == types.Object(v) {
+						idx = i
+					}
+				}
+				okAll, ncalls := true, 0
+				for _, s := range p.Sites(f.Obj) {
+					ncalls++
+					if idx < 0 || idx >= len(s.Call.Args) || !isFreshLit(s.Call.Args[idx]) {
+						okAll = false
+					}
+				}
+				r.Check(okAll && ncalls > 0, construct, as.Pos(), "setter: every caller passes a composite literal allocated for the entry", "a caller of this setter passes a link object that is not allocated for the entry: entries can alias one another")
+				return true
+			}
+			if isV && !v.IsField() {
+				// a local: defined from a fresh literal inside the innermost loop that contains the store
+				loop := eng.LoopOf(f.Decl.Body, as.Pos())
+				fresh := false
+				for _, e := range eng.AssignedExprs(info, f.Decl.Body, v) {
+					if isFreshLit(e) && (loop == nil || (loop.Pos() <= e.Pos() && e.Pos() < loop.End())) {
+						fresh = true
+					} else {
+						fresh = false
+						break
+					}
+				}
+				r.Check(fresh, construct, as.Pos(), "a local allocated inside the loop iteration that stores it",
+					"the stored link object is allocated outside the loop that registers it under several keys: all those keys share one object and report the fields (e.g. fromVersion/toVersion) written last")
+				return true
+			}
+			r.Bad(construct, as.Pos(), "the stored link is neither a composite literal nor a local allocated for this entry")
+			return true
+		})
+	}
+	if n == 0 {
+		r.Unknown("link registries", token.NoPos, "no store into a map of *...Link found in "+pkgCtrl)
+	}
 }
 
 // runC09R7: RemoveFullObject sets Object to nil when keepFullObjectsInMemory is false. A renderer (binding_context
